@@ -136,7 +136,9 @@ class FakeSnowflakeCursor:
             if os.environ.get("FAKESNOW_DEBUG") == "snowflake":
                 print(f"{command};{params=}" if params else f"{command};", file=sys.stderr)
 
-            command = self._inline_variables(command)
+            # when params are substituted client-side the command is a % format string, so a percent sign in an
+            # inlined variable value must not be read as (part of) a placeholder
+            command = self._inline_variables(command, escape_percent=self._binds_client_side(params))
             command, params = self._rewrite_with_params(command, params)
             if self._conn.nop_regexes and any(re.match(p, command, re.IGNORECASE) for p in self._conn.nop_regexes):
                 transformed = transforms.SUCCESS_NOP
@@ -464,7 +466,7 @@ class FakeSnowflakeCursor:
         command: str,
         params: Sequence[Any] | dict[Any, Any] | None = None,
     ) -> tuple[str, Sequence[Any] | dict[Any, Any] | None]:
-        if params and self._conn._paramstyle in ("pyformat", "format"):  # noqa: SLF001
+        if self._binds_client_side(params):
             # handle client-side in the same manner as the snowflake python connector
 
             def convert(param: Any) -> Any:  # noqa: ANN401
@@ -487,8 +489,11 @@ class FakeSnowflakeCursor:
 
         return command, params
 
-    def _inline_variables(self, sql: str) -> str:
-        return self._conn.variables.inline_variables(sql)
+    def _binds_client_side(self, params: Sequence[Any] | dict[Any, Any] | None) -> bool:
+        return bool(params) and self._conn._paramstyle in ("pyformat", "format")  # noqa: SLF001
+
+    def _inline_variables(self, sql: str, escape_percent: bool = False) -> str:
+        return self._conn.variables.inline_variables(sql, escape_percent=escape_percent)
 
 
 def _column_to_pylist(column: pyarrow.ChunkedArray) -> list:
